@@ -492,8 +492,8 @@ pub fn run_netto(case: &Case) -> Outcome {
     // a coroutine it makes ready has to run promptly, not at the next selector wake-up
     let wsem = Arc::new(may::sync::Semphore::new(0));
     let wdone = Arc::new(std::sync::atomic::AtomicBool::new(false));
-    let wposts: Arc<Mutex<Vec<u64>>> = Arc::new(Mutex::new(vec![]));
-    let wwakes: Arc<Mutex<Vec<u64>>> = Arc::new(Mutex::new(vec![]));
+    let wposts: Arc<Mutex<Vec<(u64, u64)>>> = Arc::new(Mutex::new(vec![]));
+    let wwakes: Arc<Mutex<Vec<(u64, u64)>>> = Arc::new(Mutex::new(vec![]));
     let witness = {
         let (wsem, wdone, wwakes) = (wsem.clone(), wdone.clone(), wwakes.clone());
         spawn(CO, "witness", move || loop {
@@ -501,7 +501,7 @@ pub fn run_netto(case: &Case) -> Outcome {
             if wdone.load(Ordering::SeqCst) {
                 break;
             }
-            let t = sched::now_ns();
+            let t = sched::now_tick();
             wwakes.lock().unwrap().push(t);
         })
     };
@@ -542,7 +542,7 @@ pub fn run_netto(case: &Case) -> Outcome {
                     Err(_) => (2, 0),
                 };
                 results.lock().unwrap()[i] = Some((kind, bytes, vc, vr, t1 - t0));
-                wposts.lock().unwrap().push(sched::now_ns());
+                wposts.lock().unwrap().push(sched::now_tick());
                 wsem.post();
                 states.leave(actor, i);
             }
@@ -715,14 +715,16 @@ pub fn run_netto(case: &Case) -> Outcome {
     if !matches!(wend, End::Ok(())) {
         out.fail("witness-ended-abnormally", wend.kind());
     }
-    // without stall faults nothing keeps a worker from running a ready coroutine for long:
-    // the idle poll of a worker is 10 ms, a ready coroutine that waits 5 ms of virtual time
-    // (50 000 schedule points of others) sat in a run queue that nobody looked at
+    // the virtual clock moves in two ways: by the ticks of executed schedule points and by
+    // jumps to the next deadline when no thread is runnable. time that jumped away while the
+    // witness was ready means that every worker slept although a run queue was not empty
+    // (the idle poll of a worker is 10 ms); stall faults are such sleeps on purpose
     if !stalls {
         let (p, w) = (wposts.lock().unwrap().clone(), wwakes.lock().unwrap().clone());
-        for (i, (tp, tw)) in p.iter().zip(w.iter()).enumerate() {
-            if tw.saturating_sub(*tp) > 5_000_000 {
-                out.fail("coroutine-made-ready-by-the-reader-not-run", format!("wake-up {i} posted at {tp} ns, the woken coroutine ran at {tw} ns"));
+        for (i, ((tp, kp), (tw, kw))) in p.iter().zip(w.iter()).enumerate() {
+            let jumped = tw.saturating_sub(*tp).saturating_sub(kw.saturating_sub(*kp));
+            if jumped > 5_000_000 {
+                out.fail("coroutine-made-ready-by-the-reader-not-run", format!("wake-up {i} posted at {tp} ns, the woken coroutine ran at {tw} ns, {jumped} ns of that with every thread asleep"));
             }
         }
     }
